@@ -121,6 +121,34 @@ def gen_factory(tier):
                        op_dump()]
                 yield Case("n%d" % n, ops, {"kind": "numstr", "x": s.hex()})
                 n += 1
+        # G5a: numeric strings at the edges of the decimal and integer ranges
+        EDGE = [b"1e308", b"1e309", b"-1e309", b"1.8e308", b"1.7976931348623157e308", b"1.7976931348623159e308", b"1e-323", b"1e-324", b"4.9e-324",
+                b"2e-324", b"1e-400", b"-1e-400", b"1e999", b"9e999", b"0x1p1023", b"0x1p1024", b"0x1p-1074", b"0x1p-1076", b"0x1p2000", b"inf", b"-inf",
+                b"nan", b"infinity", b"1e+308", b"1E309", b"9" * 400, b"0." + b"0" * 400 + b"1", b"9223372036854775807", b"9223372036854775808",
+                b"-9223372036854775808", b"-9223372036854775809", b"18446744073709551615", b"18446744073709551616", b"0x7fffffffffffffff",
+                b"0xffffffffffffffff", b"0x10000000000000000", b"1e19", b"  1e309", b"1e309  ", b"+1e309", b".5e-324"]
+        for s0 in EDGE:
+            for var in (s0, s0 + b"x", b" " + s0):
+                ops = [op_ctx(), op_setvar("X", sspec(var)), op_run("r0 = isnum(x);"),
+                       op_run('begin r1 = num(x); exception when out_of_range then r1 = "E:OOR"; end;'),
+                       op_run('begin r2 = int(x); exception when out_of_range then r2 = "E:OOR"; end;'),
+                       op_run("r3 = isnum(raw(x));"),
+                       op_run('begin r4 = num(raw(x)); exception when out_of_range then r4 = "E:OOR"; end;'),
+                       op_dump()]
+                yield Case("n%d" % n, ops, {"kind": "numstr", "x": var.hex()})
+                n += 1
+        # G4b: separators and patterns containing NUL and high bytes
+        ANUL = [0x61, 0x00, 0x7c, 0xff]
+        for x in strings(ANUL, 3):
+            for y in strings(ANUL, 2):
+                if not y:
+                    continue
+                ops = [op_ctx(), op_setvar("X", sspec(x)), op_setvar("Y", sspec(y)), op_setvar("Z", sspec(b"#"))]
+                for k, e in enumerate(TERN_S):
+                    ops.append(op_run(guarded(e, "r%d" % k)))
+                ops.append(op_dump())
+                yield Case("t%d" % n, ops, {"kind": "tern", "x": x.hex(), "y": y.hex(), "z": b"#".hex()})
+                n += 1
         # G5b: conversions of numbers
         for i in int_lattice(tier):
             ops = [op_ctx(), op_setvar("I", "i%d" % i), op_run("r0 = str(i);"), op_run("r1 = int(str(i));"), op_run("r2 = isnum(str(i));"),
